@@ -28,6 +28,10 @@ class Controller:
     def boundary(self, label):
         if not self.armed:
             return
+        if self.dead and self.mode == "raise" and getattr(self, "sticky_death", True):
+            # a dead process runs no exception handlers and no finally blocks: whatever the code under test tries to do with the
+            # journal while the Kill unwinds through it (ROLLBACK in an `except BaseException`, a commit in a `finally`) does not happen
+            raise Kill(f"already dead ({label})")
         i = self.n
         self.n += 1
         if self.record:
@@ -81,6 +85,31 @@ class ConnProxy:
         r = self._conn.commit()
         self._ctl.boundary("after commit")
         return r
+
+    def rollback(self):
+        self._ctl.boundary("before rollback")
+        r = self._conn.rollback()
+        self._ctl.boundary("after rollback")
+        return r
+
+    def execute(self, sql, *a):
+        head = sql.strip().split(None, 2)
+        label = " ".join(head[:2]) if head else "?"
+        self._ctl.boundary("before " + label)
+        r = self._conn.execute(sql, *a)
+        self._ctl.boundary("after " + label)
+        return r
+
+    # `with conn:` - sqlite3's own protocol: commit on success, roll back on an exception (both are boundaries like the explicit calls)
+    def __enter__(self):
+        return self
+
+    def __exit__(self, et, ev, tb):
+        if et is None:
+            self.commit()
+        else:
+            self._conn.rollback()
+        return False
 
     def close(self):
         return self._conn.close()
